@@ -388,7 +388,14 @@ impl Gen {
         let some_conn = |rng: &mut Rng| if n_conns == 0 { 0 } else { rng.usize(n_conns + 1) };
         match rng.below(100) {
             0..=24 => {
-                let peer = if rng.chance(1, 6) { None } else { Some(1 + rng.usize(3)) };
+                // mostly remote peers; sometimes no peer; sometimes our OWN peer id as the dial target
+                let peer = if rng.chance(1, 6) {
+                    None
+                } else if rng.chance(1, 12) {
+                    Some(0)
+                } else {
+                    Some(1 + rng.usize(3))
+                };
                 let addrs = if peer.is_none() {
                     vec![self.addr_variant(rng, None)]
                 } else {
